@@ -152,7 +152,7 @@ pub fn parse_path(s: &str) -> syn::Path {
             segments: Default::default(),
         };
     }
-    if t.ends_with(')') {
+    if t.ends_with(')') || t.contains(") ->") {
         let tb: syn::TraitBound =
             syn::parse_str(t).unwrap_or_else(|e| panic!("harness: bad paren path {t}: {e}"));
         return tb.path;
